@@ -198,8 +198,11 @@ CLAIMED = {
         "From hypotheses on the initial world only when the revision list is within revisionHistoryLimit (C02_full_model_converges_closed, RoundRevs.v), and from "
         "the round after convergence on every world satisfies quietb, i.e. no write at all (C02_full_model_converges_and_goes_quiet: the whole property over the "
         "full model, within mu+1 fair rounds of a regular initial world; the stored status then says replicas = readyReplicas = spec.replicas, C02_full_model_stored_status). "
-        "PARTIAL: the phase before regularity (chaotic prefix: faults, lagging caches, adoption, creation of the update revision, unsettled pods), revision lists "
-        "longer than the limit, and (as a cross-check of the hypotheses on observed worlds) that a fair history ends in a quietb world, are evaluated inside coqc (round_check "
+        "ANY HISTORY LENGTH (RoundTrunc.v, SortFilter.v): the same without the bound on the revision list, truncateHistory deleting in mid-rollout included "
+        "(C02_full_model_converges_any_history, _any_history_goes_quiet within mu+2 rounds, _any_history_stored_status; premises: the update revision has no numeric "
+        "hash label, revisionHistoryLimit >= 0; insertion sort and name de-duplication commute with a filter by name; getStatefulSetRevisions resolves the same revisions on the shorter list). "
+        "PARTIAL: the phase before regularity (chaotic prefix: faults, lagging caches, adoption, creation of the update revision, unsettled pods), "
+        "and (as a cross-check of the hypotheses on observed worlds) that a fair history ends in a quietb world, are evaluated inside coqc (round_check "
         "on worlds observed at round boundaries of histories and on synthetic settled worlds; quietb on the final world of every history), not proved. Both are "
         "decided on the implementation on every generated history (chaotic prefix of reconciles, kubelet events, partial cache refreshes, faults, edits that stop; "
         "fair suffix): converged, status = census, last two reconciles write nothing. The environment model (Env.v) is compared with the real world after every op inside coqc. "
